@@ -22,7 +22,7 @@ REQUIRED_THEOREMS = [
 RULE = ("orders 1..32 x generator classes {dense, scaled dense, integer with known solution, SPD, symmetric "
         "indefinite with positive diagonal, diagonally dominant, permuted/scaled triangular, graded to cond 1e10, "
         "tiny leading pivot, adversarial pivot columns (tiny diagonal, O(1) maximum mid-column, small decoys below), "
-        "sparse SPD (arrowhead, banded, block)} x 1..6 right-hand sides x every entry point (solve, solve_sys, invert_matrix, "
+        "sparse SPD (arrowhead, banded, block), extreme power-of-two scale 2^k (|k| 400..1000), singular PSD B*B^T} x 1..6 right-hand sides x every entry point (solve, solve_sys, invert_matrix, "
         "Matrix::solve for Vector and Matrix, Matrix::inv) plus explicit LU / Cholesky routes; "
         "non-trivial = distinct (op, class, order, nrhs)")
 EXHAUSTIVE = {"quick": False, "thorough": False}
@@ -428,7 +428,90 @@ def g_block_spd(rng, n):
     return A
 
 
+SCALE_EXPS = [-1000, -800, -600, -540, -400, 400, 500, 520, 600, 900]
+
+
+def g_extreme_base(rng, n):
+    """O(1) base matrix of the extreme-scale class: integer or well-conditioned dense; variants with a zero
+    leading entry and with rows permuted so that several row swaps are needed"""
+    n = max(2, min(n, 12))
+    kind = rng.choice(["int", "int", "dense", "permdom"])
+    if kind == "int":
+        A = g_int(rng, n)
+    elif kind == "dense":
+        A = [rng.normal() for _ in range(n * n)]
+        for i in range(n):
+            A[i * n + i] += rng.choice([-1.0, 1.0]) * 2.0
+    else:
+        D = g_diagdom(rng, n)
+        perm = rng.shuffle(list(range(n)))
+        A = [D[perm[i] * n + j] for i in range(n) for j in range(n)]
+    if rng.chance(0.4):
+        A[0] = 0.0
+        if all(A[i * n] == 0.0 for i in range(n)):
+            A[(n - 1) * n] = 3.0
+    if all(v == int(v) for v in A) and bareiss_det([int(v) for v in A], n) == 0:
+        for i in range(n):
+            A[i * n + i] += 13.0
+        if rng.chance(0.4) and n >= 2:           # keep a zero leading entry, still nonsingular
+            A[0], A[n] = 0.0, (A[n] or 5.0)
+    return A
+
+
+def g_extreme(rng, n):
+    """base matrix times an exact power of two 2^k, |k| in 400..1000: every entry finite and normal"""
+    A = g_extreme_base(rng, n)
+    k = rng.choice(SCALE_EXPS)
+    return [math.ldexp(v, k) for v in A]
+
+
+def g_psd_singular(rng, n):
+    """A = B B^T, B integer lower triangular with a zero on the diagonal (usually the LAST entry): singular,
+    positive semi-definite, NOT positive definite; all Cholesky arithmetic on it is exact"""
+    B = [[0] * n for _ in range(n)]
+    for i in range(n):
+        for j in range(i):
+            B[i][j] = rng.randint(-3, 3)
+        B[i][i] = rng.randint(1, 4)
+    z = n - 1 if rng.chance(0.7) else rng.randint(0, n - 1)
+    B[z][z] = 0
+    return [float(sum(B[i][k] * B[j][k] for k in range(n))) for i in range(n) for j in range(n)]
+
+
+def exact_chol_verdict(A, n):
+    """Run the Cholesky-Banachiewicz sweep in exact rational arithmetic.  'reject' / 'accept' when every
+    intermediate value is a small dyadic rational (so the f64 sweep performs exactly the same arithmetic
+    and must reach the same verdict); None when some value is not exactly representable (no claim)."""
+    if not all(v == int(v) and abs(v) < 2 ** 20 for v in A) or n > 32:
+        return None
+    if any(A[i * n + j] != A[j * n + i] for i in range(n) for j in range(i)):
+        return None
+    L = [[Fraction(0)] * n for _ in range(n)]
+
+    def small(q):
+        d = q.denominator
+        return d & (d - 1) == 0 and d <= 2 ** 20 and abs(q.numerator) < 2 ** 40
+
+    for i in range(n):
+        for j in range(i + 1):
+            s = sum(L[j][k] * L[i][k] for k in range(j))
+            if i == j:
+                piv = Fraction(int(A[i * n + i])) - s
+                if piv <= 0:
+                    return "reject"
+                num, den = math.isqrt(piv.numerator), math.isqrt(piv.denominator)
+                if num * num != piv.numerator or den * den != piv.denominator:
+                    return None
+                L[i][i] = Fraction(num, den)
+            else:
+                L[i][j] = (Fraction(int(A[i * n + j])) - s) / L[j][j]
+            if not small(L[i][j]):
+                return None
+    return "accept"
+
+
 CLASSES = {
+    "extreme": g_extreme, "psd_singular": g_psd_singular,
     "advpivot": g_advpivot, "arrow_spd": g_arrow_spd, "band_spd": g_band_spd, "block_spd": g_block_spd,
     "dense": g_dense, "int": g_int, "spd": g_spd, "symindef": g_symindef, "diagdom": g_diagdom,
     "diagdom_sym": lambda r, n: g_diagdom(r, n, True), "tri": g_tri, "graded": g_graded,
@@ -467,7 +550,7 @@ def rhs(rng, A, n, ncol, cls):
     if cls == "int":
         X = [float(rng.randint(-9, 9)) for _ in range(n * ncol)]
         return [float(sum(int(A[i * n + j]) * int(X[j * ncol + c]) for j in range(n))) for i in range(n) for c in range(ncol)]
-    s = max(abs(v) for v in A) if cls == "scaled" else 1.0
+    s = max(abs(v) for v in A) if cls in ("scaled", "extreme") else 1.0
     return [rng.normal() * s for _ in range(n * ncol)]
 
 
@@ -496,6 +579,8 @@ def gen(rng, tier):
             n = 1 + it % 32
         if cls == "advpivot":
             n = rng.randint(3, 16)
+        if cls == "extreme":
+            n = rng.randint(2, 12)
         A = CLASSES[cls](rng, n)
         ncol = rng.randint(1, 6)
         B = rhs(rng, A, n, ncol, cls)
@@ -707,6 +792,12 @@ def oracle(lines, impl):
                 ok2 = check_solution(fails, i, key, "lu+lu_solve", A, n, fl(lu_), B, 1, ins)
                 if ins and ok1 and ok2:
                     near(fails, i, key, "solve-vs-LU-route", fl(sv), fl(lu_), n, 1, cond)
+                if exact_chol_verdict(A, n) == "reject":
+                    # exactly representable sweep hits a pivot <= 0: no Cholesky factor, `solve` is the LU route
+                    if ch is not None:
+                        fails.append(Failure(i, key, "cholesky accepted a matrix whose exact sweep meets a pivot <= 0 (not positive definite)"))
+                    if sv != lu_:
+                        fails.append(Failure(i, key, "solve did not fall back to the LU route on a matrix that is not positive definite"))
                 # the answer of `solve` is one of the two routes, bit for bit
                 if sv is not None and sv != lu_ and sv != ch:
                     fails.append(Failure(i, key, "solve equals neither the LU route nor the Cholesky route"))
